@@ -271,17 +271,24 @@ def vHetSpec (v : VcfIn) (o : HetOpts) (impl : Json) : R (List String) := do
         | none => kept
       let hets := typed.filter isHet
       let hets := hets.map (fun r => if o.tumorBoost then { r with t := { r.t with altFreq := boostRow r } } else r)
-      let same (a b : VRow) : Bool := a.chrom == b.chrom && a.s == b.s && a.e == b.e && a.alt == b.alt
-      let c1 := if t.rows.length == hets.length && (t.rows.zip hets).all (fun p => same p.1 p.2) then []
-                else ["het_keeps_exactly_hets"]
-      -- every reported row must carry its own record's numbers
-      let own (r : VRow) : Option VRow := typed.find? (fun x => same x r && x.t.depth == r.t.depth && x.t.altCount == r.t.altCount)
-      let c2 := if t.rows.all (fun r => (own r).isSome) then [] else ["freqs_stay_attached"]
-      let c3 := if t.rows.all (fun r => match own r with
-                  | some x => vCloseFreq r.t.altFreq (if o.tumorBoost then boostRow x else x.t.altFreq) &&
-                              r.t.zyg == x.t.zyg && (r.n.map (·.zyg)) == (x.n.map (·.zyg))
-                  | none => true) then []
-                else [if o.tumorBoost then "tumorboost_formula" else "freqs_stay_attached"]
+      let same (a b : VRow) : Bool := a.chrom == b.chrom && a.s == b.s && a.e == b.e && a.ref == b.ref && a.alt == b.alt
+      let aligned := t.rows.length == hets.length && (t.rows.zip hets).all (fun p => same p.1 p.2)
+      let c1 := if aligned then [] else ["het_keeps_exactly_hets"]
+      -- every reported row must carry its own record's numbers (rows compared in order; when the row
+      -- set itself is wrong, each reported row must at least be some expected row of its coordinates)
+      let z := t.rows.zip hets
+      let c2 := if aligned then
+          (if z.all (fun p => p.1.t.depth == p.2.t.depth && p.1.t.altCount == p.2.t.altCount &&
+                              (p.1.n.map (·.depth)) == (p.2.n.map (·.depth))) then [] else ["freqs_stay_attached"])
+        else
+          (if t.rows.all (fun r => typed.any (fun x => same x r && x.t.depth == r.t.depth && x.t.altCount == r.t.altCount))
+           then [] else ["freqs_stay_attached"])
+      let c3 := if aligned then
+          (if z.all (fun p => vCloseFreq p.1.t.altFreq p.2.t.altFreq) then []
+           else [if o.tumorBoost then "tumorboost_formula" else "freqs_stay_attached"]) ++
+          (if z.all (fun p => p.1.t.zyg == p.2.t.zyg && (p.1.n.map (·.zyg)) == (p.2.n.map (·.zyg))) then []
+           else ["zygosity_table"])
+        else []
       pure (vDedup (c1 ++ c2 ++ c3))
 
 /-- `|median − 1/2|` of a value list (distance to the mirroring branch), 1 when not applicable -/
@@ -374,8 +381,10 @@ def handleVcf (op : String) (inp : Json) (impl : Option Json) : R (Option Json) 
     let out := bafByRanges tb segs above boost
     let spec ← (match impl with
       | none => pure Json.null
-      | some ij => do pure (vClausesJ (vBafSpec tb segs above boost (← getList getOptRat ij))))
-    pure (some (obj [("out", vOptRatsJ out), ("spec", spec), ("slack", ratJ (vBafSlack tb segs above boost))]))
+      | some ij =>
+        if (vImplErr ij).isSome then pure (vClausesJ ["raises_error"]) else
+        do pure (vClausesJ (vBafSpec tb segs above boost (← getList getOptRat ij))))
+    pure (some (obj [("out", vOptRatsJ out), ("spec", spec), ("mslack", ratJ (vBafSlack tb segs above boost))]))
   | "vcf_mirror" =>
     let tb ← vGetTable (← fld inp "table")
     let above ← vGetOptBool (← fld inp "above")
@@ -384,7 +393,8 @@ def handleVcf (op : String) (inp : Json) (impl : Option Json) : R (Option Json) 
     let out := mirroredBafOf tb above boost
     let spec ← (match impl with
       | none => pure Json.null
-      | some ij => do
+      | some ij =>
+        if (vImplErr ij).isSome then pure (vClausesJ ["raises_error"]) else do
         let im ← getList getOptRat ij
         if im.length != vals.length then pure (vClausesJ ["one_value_per_row"]) else
         let fin := im.filterMap id
@@ -401,7 +411,7 @@ def handleVcf (op : String) (inp : Json) (impl : Option Json) : R (Option Json) 
         pure (vClausesJ ((if oneSide && side then [] else ["mirror_one_side"]) ++
                          (if dist then [] else ["mirror_keeps_distance"]))))
     pure (some (obj [("out", vOptRatsJ out), ("spec", spec),
-                     ("slack", ratJ (if above.isSome then 1 else vMirrorSlack vals))]))
+                     ("mslack", ratJ (if above.isSome then 1 else vMirrorSlack vals))]))
   | "vcf_pipeline" =>
     let v ← vGetVcf inp
     let o ← vGetHetOpts inp
@@ -435,14 +445,16 @@ def handleVcf (op : String) (inp : Json) (impl : Option Json) : R (Option Json) 
             (if (im.zip exp).all (fun p => p.1.isNone || p.2.isNone || vCloseOpt p.1 p.2) then []
              else ["baf_is_median_of_mirrored"])))))
       pure (some (obj [("out", vOptRatsJ out), ("spec", spec),
-                       ("slack", ratJ (min zslack (vBafSlack tb segs none false)))]))
+                       ("nohet", boolJ (!tb.rows.isEmpty && !tb.rows.any isHet)),
+                       ("slack", ratJ zslack), ("mslack", ratJ (vBafSlack tb segs none false))]))
   | "vcf_boost" =>
     let ts ← getList getRat (← fld inp "t")
     let ns ← getList getRat (← fld inp "n")
     let out := (ts.zip ns).map (fun p => tumorBoost p.1 p.2)
     let spec ← (match impl with
       | none => pure Json.null
-      | some ij => do
+      | some ij =>
+        if (vImplErr ij).isSome then pure (vClausesJ ["raises_error"]) else do
         let im ← getList getOptRat ij
         if im.length != ts.length then pure (vClausesJ ["one_value_per_row"]) else
         -- boosted = t/(2n) if t < n, 1 − (1−t)/(2(1−n)) otherwise (stated without division)
@@ -458,7 +470,8 @@ def handleVcf (op : String) (inp : Json) (impl : Option Json) : R (Option Json) 
     let out := obs.map (fun x => x.map (rescaleBaf p))
     let spec ← (match impl with
       | none => pure Json.null
-      | some ij => do
+      | some ij =>
+        if (vImplErr ij).isSome then pure (vClausesJ ["raises_error"]) else do
         let im ← getList getOptRat ij
         if im.length != obs.length then pure (vClausesJ ["one_value_per_row"]) else
         -- the tumour BAF mixes back to the observed one: t·p + ½(1−p) = obs
